@@ -106,7 +106,10 @@ def sw_doc(lead, multi, trail, place):
         return Doc(['', ' ' + LEADS[lead].strip() + ' of ', TRAILS[trail]], [tr, sec]), tr, sec
     if place == 1:        # Twp/Rge right after the section
         return Doc([LEADS[lead] + ' of ', ', ', TRAILS[trail]], [sec, tr]), tr, sec
-    return Doc([LEADS[lead] + ' of ', TRAILS[trail] + ', ', ''], [sec, tr]), tr, sec
+    if place == 2:        # Twp/Rge at the end
+        return Doc([LEADS[lead] + ' of ', TRAILS[trail] + ', ', ''], [sec, tr]), tr, sec
+    # Twp/Rge in the middle of the trailing text: two trailing blocks
+    return Doc([LEADS[lead] + ' of ', TRAILS[trail] + ', ', ', less and except the highway'], [sec, tr]), tr, sec
 
 
 def sw_verdict(tracts, w_flags, tr, sec, lead_text, trail_text):
@@ -133,13 +136,13 @@ def ob_sec_within(ob):
     from props.wf_docs import observed
 
     def target(lead: int, multi: bool, trail: int, place: int):
-        li, ti, pl = choose(lead, range(3)), choose(trail, range(3)), choose(place, range(3))
+        li, ti, pl = choose(lead, range(3)), choose(trail, range(3)), choose(place, range(4))
         doc, tr, sec = sw_doc(li, bool(multi), ti, pl)
         p = P.run_parser(doc, 'sec_within')
-        return sw_verdict(observed(p), list(p.w_flags), tr, sec, LEADS[li], TRAILS[ti]) is None
+        return sw_verdict(observed(p), list(p.w_flags), tr, sec, LEADS[li], TRAILS[ti] + (' less and except the highway' if pl == 3 else '')) is None
 
     st = explore(target, timeout=600, max_viol=6)
-    info = dict(bound='3 leading texts x section | through-range x 3 trailing texts x Twp/Rge before / after section / at the end',
+    info = dict(bound='3 leading texts x section | through-range x 3 trailing texts x Twp/Rge before / after section / at the end / inside the trailing text',
                 samples=[{'doc': ' That part of Sec 14, T154N-R97W lying north of the river', 'mode': 'sec_within'}])
     cl = lambda x, n: x if 0 <= x < n - 1 else n - 1
 
@@ -147,11 +150,11 @@ def ob_sec_within(ob):
         out = []
         for v in vs:
             a = v['args']
-            doc, tr, sec = sw_doc(cl(a['lead'], 3), bool(a['multi']), cl(a['trail'], 3), cl(a['place'], 3))
+            doc, tr, sec = sw_doc(cl(a['lead'], 3), bool(a['multi']), cl(a['trail'], 3), cl(a['place'], 4))
             out.append(violation('sec_within', f'{doc.string!r} with sec_within: leading and trailing text are not joined in order into the '
                                  f'section\'s tract(s) with a warning; {v["exc"]}', 'c20_within',
                                  {'text': doc.string, 'trs': [tr.data['twprge'] + s for s in sec.data['secs']],
-                                  'lead': LEADS[cl(a['lead'], 3)], 'trail': TRAILS[cl(a['trail'], 3)]}))
+                                  'lead': LEADS[cl(a['lead'], 3)], 'trail': TRAILS[cl(a['trail'], 3)] + (' less and except the highway' if cl(a['place'], 4) == 3 else '')}))
         return out[:3]
     return from_explore(st, info, mk)
 
